@@ -18,12 +18,13 @@ EXTENDS Naturals, Sequences, FiniteSets
 (* loop iterations of clean-up while being cancelled)                                                                       *)
 (* plainZero / plainFalse / plainEmpty: plain methods returning 0 / False / an empty bytes object - values all the same              *)
 Kinds == {"coroVal", "coroRaise", "plainNone", "plainVal", "plainRaise", "notCallable", "coroWait", "coroSlow",
-          "plainZero", "plainFalse", "plainEmpty", "plainWraps"}        \* plainWraps: a plain function that wraps (functools.wraps) a coroutine function
+          "plainZero", "plainFalse", "plainEmpty", "plainWraps", "shadowPlain", "shadowCoro"}
+(* shadowPlain: a plain function stored on the instance under the name of a coroutine method of the class; shadowCoro: the other way round - what counts is the attribute actually fetched *)        \* plainWraps: a plain function that wraps (functools.wraps) a coroutine function
 PlainValued == {"plainVal", "plainZero", "plainFalse", "plainEmpty"}
-IsCoro(k) == k \in {"coroVal", "coroRaise", "coroWait", "coroSlow"}
+IsCoro(k) == k \in {"coroVal", "coroRaise", "coroWait", "coroSlow", "shadowCoro"}
 
 (* what the body produces when it runs *)
-BodyOutcome(k) == CASE k \in {"coroVal", "coroWait", "coroSlow"} -> "val" [] k = "coroRaise" -> "exc" [] k = "plainNone" -> "none"
+BodyOutcome(k) == CASE k \in {"coroVal", "coroWait", "coroSlow", "shadowCoro"} -> "val" [] k = "coroRaise" -> "exc" [] k = "plainNone" -> "none"
                     [] k \in PlainValued -> "val" [] k = "plainRaise" -> "exc" [] OTHER -> "none"
 
 (* Invoke: the caller's side of proxy.method(...) up to the point where it returns to the caller *)
